@@ -34,6 +34,7 @@ func init() {
 		Units: []Unit{
 			{Name: "readfaults", QShards: 4, TShards: 12, Run: c07ReadFaults},
 			{Name: "readfaults-large", QShards: 6, TShards: 12, Run: c07ReadFaultsLarge},
+			{Name: "readfaults-giant", QShards: 6, TShards: 12, Run: c07ReadFaultsGiant},
 			{Name: "writefaults", QShards: 2, TShards: 8, Run: c07WriteFaults},
 			{Name: "writefaults-large", QShards: 10, TShards: 16, Run: c07WriteFaultsLarge},
 			{Name: "filefaults", Thorough: true, Run: c07FileFaults},
@@ -313,6 +314,70 @@ func c07ReadFaultsLarge(c *Ctx) {
 					}
 				}
 				k.Nontrivial([]byte(f), x)
+			})
+			idx++
+		}
+	}
+}
+
+// c07ReadFaultsGiant: one line longer than 1 MiB (thorough: also 4.5 MiB) with
+// faults around the usual buffer multiples inside it, around its end, and at
+// random places of its tail, in every non-bytewise fault mode.
+func c07ReadFaultsGiant(c *Ctx) {
+	sizes := []int{1<<20 + 200000}
+	if c.Thorough {
+		sizes = append(sizes, 4<<20+500000)
+	}
+	idx := int64(0)
+	for _, f := range c06Formats {
+		cd := codecByName(f)
+		for _, size := range sizes {
+			c.Case(idx, func(k *K) {
+				r := k.Rand()
+				x := giantText(r, f, size)
+				k.Input("format", f)
+				k.Input("input_bytes", len(x))
+				ref, _ := collect(cd.seq(bytes.NewReader(x)), 64)
+				for _, it := range ref {
+					if it.Err {
+						k.Failf("wellformed-rejected", "%s: fault-free decode of a text with a line of %d bytes has an error item", f, size)
+						return
+					}
+				}
+				offs := map[int]bool{len(x): true, len(x) - 1: true}
+				for _, b := range []int{4096, 65536, 1 << 20, 2 << 20, 4 << 20} {
+					for d := -1; d <= 1; d++ {
+						offs[b+d] = true
+					}
+				}
+				first := bytes.IndexByte(x, '\n')
+				for p, b := range x {
+					if b == '\n' && (p < first+300000 || p > len(x)-300000 || r.IntN(3) == 0) && len(offs) < 70 {
+						for d := -1; d <= 2; d++ {
+							offs[p+d] = true
+						}
+					}
+				}
+				for j := 0; j < 25; j++ { // the tail of the long line and what follows it
+					offs[len(x)-1-r.IntN(size/2)] = true
+				}
+				for kk := range offs {
+					if kk < 0 || kk > len(x) {
+						continue
+					}
+					for _, m := range faultModes {
+						if m.bytewise {
+							continue
+						}
+						if !faultRun(k, cd, x, ref, kk, m) {
+							return
+						}
+						k.Evals(1)
+					}
+				}
+				k.Count("giant_line_inputs", 1)
+				k.Count("giant_line_fault_offsets", int64(len(offs)))
+				k.Nontrivial([]byte(f), []byte(fmt.Sprint("giant", size)))
 			})
 			idx++
 		}
